@@ -5,6 +5,9 @@ cd "$(dirname "$0")"
 export CARGO_NET_OFFLINE=true
 (cd tools/mirfacts && cargo build --offline 2>&1 | tail -2)
 if [ -d tools/syndump ]; then (cd tools/syndump && cargo build --offline --release 2>&1 | tail -2); fi
+# warm the dependency build of the skeleton crate (wgpu, bytemuck, encase, glam, serde) used by the C01 compile witness
+mkdir -p .work
+(cd tools/skeleton && CARGO_TARGET_DIR="$PWD/../../.work/skel-target" RUSTFLAGS=-Awarnings cargo check --offline 2>&1 | tail -1)
 python3 - <<'PY'
 import sys
 sys.path.insert(0, 'lib')
